@@ -776,8 +776,51 @@ fn run_plans(ctx: &Ctx, name: &str, docs: &[Vec<DEv>], plans: &[Plan], encs: &[&
     }
 }
 
+/// Long and numerous content pieces, many attributes: sizes around the encoder's 63-byte stack
+/// buffer, its 4 KiB heap buffer and the usual 32 / 64 counts.
+fn scaled_plans(quick: bool) -> (Vec<Vec<DEv>>, Vec<Plan>) {
+    let sizes: &[usize] = if quick { &[62, 63, 64, 1024, 4097] } else { &[31, 32, 33, 61, 62, 63, 64, 65, 127, 1023, 1024, 1025, 4095, 4096, 4097, 9000] };
+    let mut plans = vec![];
+    for &n in sizes {
+        let x = "x".repeat(n);
+        let payloads: Vec<(String, bool)> = vec![
+            (x.clone(), true),
+            (format!("{x}\u{e9}\u{416}y"), true),
+            (format!("\u{e9}{x}"), false),
+            (format!("{}<&>", "\u{e9}".repeat(n / 2 + 1)), false),
+            (format!("{x}<i>&amp;</i>"), true),
+        ];
+        for (pl, html) in payloads {
+            for mk in [Op::Before as fn(String, bool) -> Op, Op::After, Op::Prepend, Op::Append, Op::Replace, Op::SetInner] {
+                plans.push(Plan::only_a(vec![Item::El(mk(pl.clone(), html))]));
+            }
+            plans.push(Plan::only_a(vec![Item::El(Op::SetAttr("k".into(), pl.clone()))]));
+            plans.push(Plan::only_a(vec![Item::El(Op::Before(pl.clone(), html)), Item::El(Op::Before("|".into(), true)), Item::El(Op::Before(pl.clone(), !html))]));
+            plans.push(Plan::only_a(vec![Item::End(Op::Before(pl.clone(), html)), Item::End(Op::After(pl.clone(), html))]));
+        }
+    }
+    // many small pieces queued on one element
+    for n in [33usize, 65] {
+        plans.push(Plan::only_a((0..n).map(|i| Item::El(if i % 2 == 0 { Op::Before(format!("b{i};"), true) } else { Op::Append(format!("a{i};"), true) })).collect()));
+        plans.push(Plan::only_a((0..n).map(|i| Item::El(Op::SetAttr(format!("n{i}"), format!("{i}")))).collect()));
+    }
+    let many = |n: usize| DEv::Open { name: "a".into(), attrs: AttrSet { raw: (0..n).map(|i| format!(" n{i}=v{i}")).collect::<String>() + " K=v id='i'", parsed: vec![] }, slash: false };
+    let docs = vec![
+        vec![DEv::Open { name: "a".into(), attrs: AttrSet { raw: "  K=v  id='i' ".into(), parsed: vec![] }, slash: false }, DEv::Text("t".into()), DEv::close("a"), DEv::Text("u".into())],
+        vec![DEv::open("q"), DEv::open("a"), DEv::Text("t".into()), DEv::close("a"), DEv::close("q")],
+        vec![many(33), DEv::Text("t".into()), DEv::close("a")],
+        vec![many(65), DEv::close("a")],
+        vec![DEv::open("br"), DEv::open_slash("a"), DEv::Text("t".into())],
+    ];
+    (docs, plans)
+}
+
 pub fn run_check(ctx: &Ctx) -> i32 {
     let quick = ctx.quick();
+    {
+        let (sdocs, splans) = scaled_plans(quick);
+        run_plans(ctx, &format!("(0) {} scripts with long / numerous content pieces and attribute values (sizes around 63, 1024, 4096; 33 / 65 queued pieces) x 5 documents (also 33 / 65 attributes) x {{UTF-8, windows-1252, Shift_JIS}} x {{plain, streaming}} x L0 + cut in every tag", splans.len()), &sdocs, &splans, &["UTF-8", "windows-1252", "Shift_JIS", "windows-1252+streaming"], true);
+    }
     let menu = element_menu(true);
     let small_menu = element_menu(false);
     // (1) every single op and every ordered pair of ops on `a`
